@@ -1,6 +1,7 @@
 ''' Extend SCAPY packet interface for CBOR structure encoding.
 '''
 import copy
+import io
 import logging
 import cbor2
 import scapy.packet
@@ -37,7 +38,11 @@ class AbstractCborStruct(scapy.packet.Packet):
         :param data: The encoded bundle.
         '''
         if isinstance(s, (bytes,)):
-            s = cbor2.loads(s)
+            with io.BytesIO(s) as buf:
+                item = cbor2.load(buf)
+                if buf.read(1):
+                    raise ValueError('Extra data after the end of the CBOR item')
+            s = item
         scapy.packet.Packet.dissect(self, s)
 
 
